@@ -1,31 +1,55 @@
 from rtamt.syntax.ast.visitor.stl.ast_visitor import StlAstVisitor
 from rtamt.pastifier.ltl.horizon import LtlHorizon
 
+from fractions import Fraction
+
 from rtamt.exception.exception import RTAMTException
+
+
+def bounds_in_default_unit(ast, node):
+    """begin and end of a timed node as numbers of the default unit of the specification
+    (the pastifier adds bounds up and builds new, suffix-free intervals from them)"""
+    b_unit = node.begin_unit
+    e_unit = node.end_unit
+    if len(b_unit) == 0 and len(e_unit) == 0:
+        return node.begin, node.end
+    if len(b_unit) == 0:
+        b_unit = e_unit
+    if len(e_unit) == 0:
+        e_unit = b_unit
+    begin = Fraction(node.begin) * ast.U[b_unit] / ast.U[ast.unit]
+    end = Fraction(node.end) * ast.U[e_unit] / ast.U[ast.unit]
+    return begin, end
 
 
 class StlHorizon(LtlHorizon, StlAstVisitor):
 
-    def __init__(self):
+    def __init__(self, ast=None):
         LtlHorizon.__init__(self)
+        self.ast = ast
+
+    def end_of(self, node):
+        if self.ast is None:
+            return node.end
+        return bounds_in_default_unit(self.ast, node)[1]
 
     def visit(self, node, *args, **kwargs):
         return StlAstVisitor.visit(self, node, *args, **kwargs)
 
     def visitTimedEventually(self, node, *args, **kwargs):
         op_horizon = self.visit(node.children[0], *args, **kwargs)
-        self.horizons[node] = op_horizon + node.end
-        return op_horizon + node.end
+        self.horizons[node] = op_horizon + self.end_of(node)
+        return op_horizon + self.end_of(node)
 
     def visitTimedAlways(self, node, *args, **kwargs):
         op_horizon = self.visit(node.children[0], *args, **kwargs)
-        self.horizons[node] = op_horizon + node.end
-        return op_horizon + node.end
+        self.horizons[node] = op_horizon + self.end_of(node)
+        return op_horizon + self.end_of(node)
 
     def visitTimedUntil(self, node, *args, **kwargs):
         op1_horizon = self.visit(node.children[0], *args, **kwargs)
         op2_horizon = self.visit(node.children[1], *args, **kwargs)
-        out = max(op1_horizon, op2_horizon) + node.end
+        out = max(op1_horizon, op2_horizon) + self.end_of(node)
         self.horizons[node] = out
         return out
 
